@@ -76,13 +76,12 @@ __CPROVER_loop_invariant(RI_RDR && charIndex_start <= fCharIndex && !verif_throw
 __CPROVER_loop_invariant(BUFLEN >= __CPROVER_loop_entry(BUFLEN) && BUFLEN >= BUFLEN0 && BUFLEN <= VERIF_BUFLEN_MAX)
 @*/
 
-struct XMLReader nondet_reader(void);
 struct XMLBuffer TOFILL;
 void h_getName(void)
 {
-  SELF = nondet_reader();
+  VERIF_INPUT(SELF);
   verif_thrown = 0;
-  _Bool token;
+  _Bool token; VERIF_INPUT(token);
   XMLReader_getName(&TOFILL, token);
   VERIF_CANARY("after call");
 }
